@@ -205,3 +205,26 @@ def _pv(s, i):
         w = m.group(0)
         return {'TRUE': True, 'FALSE': False}.get(w, w), m.end()
     raise ValueError('cannot parse TLA+ value at %r' % s[i:i + 40])
+
+
+def apalache(module, init, inv, length, workdir, timeout=1500):
+    """apalache-mc check --init=<init> --inv=<inv> --length=<length> on spec/<module>.tla; returns 'NoError', 'Error' or
+    'unavailable: ...' (the symbolic checker complements TLC, it never replaces it)."""
+    import shutil, subprocess, uuid
+    exe = shutil.which('apalache-mc')
+    if not exe:
+        return 'unavailable: apalache-mc not on PATH', ''
+    out = os.path.join(workdir, 'apa_' + uuid.uuid4().hex[:8])
+    os.makedirs(out, exist_ok=True)
+    try:
+        p = subprocess.run([exe, 'check', '--init=' + init, '--inv=' + inv, '--length=%d' % length, '--out-dir=' + out, module + '.tla'],
+                           cwd=SPEC_DIR, stdout=subprocess.PIPE, stderr=subprocess.STDOUT, timeout=timeout)
+    except subprocess.TimeoutExpired:
+        return 'unavailable: timeout after %ds' % timeout, ''
+    txt = p.stdout.decode('utf-8', 'replace')
+    if 'The outcome is: NoError' in txt:
+        return 'NoError', txt
+    if 'The outcome is: Error' in txt:
+        return 'Error', txt
+    return 'unavailable: ' + ' '.join(txt.split())[-300:], txt
+
